@@ -13,6 +13,10 @@ from .spec import stems_of
 # stem lengths, counted with the closing '|'  (74 = one block payload)
 BOUNDARY_LENS = [1, 2, 3, 5, 72, 73, 74, 75, 76, 146, 147, 148, 149, 150, 221, 222, 223, 300, 600]
 SMALL_LENS = [1, 2, 3, 4, 5, 8]
+import os as _os
+if _os.environ.get("VERIF_TIER") == "thorough" or _os.environ.get("TV_TIER") == "thorough":
+    # deeper bounds in the thorough tier: more exact multiples of the payload, stems of a dozen and of forty blocks
+    BOUNDARY_LENS = BOUNDARY_LENS + [296, 297, 370, 444, 1000, 2960, 2961]
 
 NOT_BAR = [b for b in range(256) if b != 0x7C]
 AROUND_BAR = [0x7A, 0x7B, 0x7D, 0x7E, 0x7F, 0x00, 0xFF, 0x2F, 0x0A, 0x0D]
@@ -20,6 +24,7 @@ AROUND_BAR = [0x7A, 0x7B, 0x7D, 0x7E, 0x7F, 0x00, 0xFF, 0x2F, 0x0A, 0x0D]
 ADVERSARIAL_BODIES = [
     b"", b"a", b"b", b"s:http", b"s:https", b"xs:http", b"s:http|"[:-1] + b"x", b"h:", b"h:www", b"h:com",
     b"~", b"}", b"\x00", b"\xff", b"\x7f", b"a}", b"a!", b"a\x00", b"A", b"www", b"a\nb", b"\n", b"a\r\nb", b" ", b"a b",
+    "\u00e9".encode("utf-8"), "caf\u00e9".encode("utf-8"), "\u65e5\u672c".encode("utf-8"), "\U0001f600".encode("utf-8"),
 ]
 
 
